@@ -24,6 +24,7 @@ This file is named mock_ instead of mock so that it can import the standard mock
 """
 
 import inspect
+import sys
 from unittest import mock
 
 from .decorators import asynq
@@ -148,10 +149,15 @@ class _PatchAsync(_patch):
         mock_fn = super(_PatchAsync, self).__enter__()
         # so we can also mock non-functions for compatibility
         if callable(mock_fn):
-            async_fn = _AsynqWrapper(mock_fn)
-            mock_fn.asynq = async_fn
-            setattr(mock_fn, "async", async_fn)
-            mock_fn.asyncio = _AsyncioWrapper(mock_fn)
+            try:
+                async_fn = _AsynqWrapper(mock_fn)
+                mock_fn.asynq = async_fn
+                setattr(mock_fn, "async", async_fn)
+                mock_fn.asyncio = _AsyncioWrapper(mock_fn)
+            except BaseException:
+                # the replacement is already installed: undo the patch before reporting the failure
+                if not self.__exit__(*sys.exc_info()):
+                    raise
         return mock_fn
 
     def copy(self):
